@@ -449,6 +449,8 @@ func TestCheck(t *testing.T) {
 		}
 	}
 
+	responseInPieces(t, s, thorough)
+
 	if s.Replay == nil {
 		s.AddStats(qx.ExploreAll(t, items, s.Remaining())...)
 	}
